@@ -40,7 +40,7 @@ def gen(r, tier, i):
     from vmon import structw
     return {'class': 'dynamic', 'cell_ts': r.choice([0.5, 1.0, 1.5, 0.75]), 'dir_as': r.choice(['process', 'step']),
             'script': structw.gen_script(r), 'base': r.choice([[], [], ['env']]),
-            'deriver': r.choice([None, 'steps', 'processes']), 'viewer_ts': r.choice([0.25, 0.5, 1.0, 1.5, 2.0, 3.0]), 'poke': r.random() < 0.5, 'nested_cells': r.random() < 0.4,
+            'deriver': r.choice([None, 'steps', 'processes']), 'dir_subtopo': r.random() < 0.25, 'viewer_ts': r.choice([0.25, 0.5, 1.0, 1.5, 2.0, 3.0]), 'poke': r.random() < 0.5, 'nested_cells': r.random() < 0.4,
             'run': r.choice([6.0, 8.0, 10.0])}
 
 
